@@ -2,6 +2,8 @@ import YardlModel.WireJson
 import YardlModel.Streams
 import YardlModel.PyStream
 import YardlModel.NdjsonReader
+import YardlModel.TypeRules
+import YardlGenerated.Tables
 import YardlModel.Batch
 import YardlModel.Expr
 import YardlModel.Imports
@@ -600,6 +602,14 @@ def handle (j : Json) : Except String Json := do
     let ops ← (← j.getObjVal? "ops").getArr?
     let out ← runCis (CIS.init cap bs) ops.toList []
     pure (Json.mkObj [("out", Json.arr (out.map Json.str).toArray)])
+  | "type_rules" =>
+    -- the validator's per-node type rules on a surface type over primitive names (canonical names from the regenerated alias table)
+    let t ← Syntax.surOfJson (← j.getObjVal? "sur")
+    let canon : TypeRules.Canon := fun n => match Generated.primAliasTab.lookup n with
+      | some (some p) => some p.name
+      | _ => none
+    let bad := (Rules.subterms t).filter fun s => !TypeRules.nodeOk canon s
+    pure (Json.mkObj [("ok", Json.bool (TypeRules.typeOk canon t)), ("bad_nodes", jn bad.length)])
   | "nd_read" =>
     -- the NDJSON step reader on a sequence of lines: "steps": [[name, isStream]...], "lines": [name...] (line i carries value i)
     let steps ← (← (← j.getObjVal? "steps").getArr?).toList.mapM fun e => do
